@@ -12,6 +12,7 @@ oracle:  Python's own semantics (str indexing / slicing / `in` / concatenation, 
          printed values compared.
 """
 import collections
+import concurrent.futures
 import itertools
 import json
 import os
@@ -947,6 +948,11 @@ def arm_programs():
                                     (2, None, lit("str", "ab")), (3, None, lit("bool", False)),
                                     (4, None, node(("bin", op), ("id", 0), ("id", 1))), (5, None, node(("bin", op), ("id", 1), ("id", 0))),
                                     (6, None, node(("bin", op), ("id", 2), ("id", 2))), (7, None, node(("bin", op), ("id", 3), ("id", 3)))]))
+    ustr = node(("slice", True, False, False), lit("str", "abc"), node(("bin", "+"), lit("int", 0), lit("int", 1)))
+    out.append(("arm:bin-ref", [(0, "str", ustr), (1, None, node(("bin", "in"), ("id", 0), ("id", 0))),
+                                (2, None, node(("bin", "not in"), ("id", 0), lit("str", "b"))), (3, None, node(("bin", "+"), ("id", 0), ("id", 0))),
+                                (4, None, node(("index",), ("id", 0), lit("int", 0))), (5, None, node(("slice", False, True, False), ("id", 0), lit("int", 1))),
+                                (6, None, node(("bin", "=="), ("id", 0), lit("str", "bc"))), (7, None, node(("bin", "<"), lit("str", "a"), ("id", 0)))]))
     for k in kinds:
         out.append(("arm:un", [(0, None, node(("un", "neg"), atoms[k][0])), (1, None, node(("un", "not"), atoms[k][0]))]))
     unv = node(("bin", "+"), lit("int", 0), lit("int", 1))          # an int whose value the evaluator does not compute
@@ -1162,9 +1168,9 @@ def run_impl(binary, progs, emit):
 REQ = "From Verif Require Import Base.I64 C06.Model.\nFrom Coq Require Import ZArith List.\nImport ListNotations.\nOpen Scope Z_scope."
 
 
-def run_model(progs, tag):
+def run_model(progs, tag, shard=150):
     terms = [coq_prog(p) for p in progs]
-    res = vlib.coq_eval(REQ, "list decl", "fun ds => (render_check ds, render_pure ds)", terms, shard=150, tag=tag)
+    res = vlib.coq_eval(REQ, "list decl", "fun ds => (render_check ds, render_pure ds)", terms, shard=shard, tag=tag)
     return [(model_rows([list(r) for r in a]), [list(r) for r in b], [list(r) for r in a]) for a, b in res]
 
 
@@ -1254,7 +1260,7 @@ REQUIRED_ARMS = (["abort:" + v for v in ERR_NAMES.values()] +
                   "lit:int", "lit:float", "lit:bool", "lit:str", "lit:bytes",
                   "combine:un:neg:valued", "combine:un:neg:typed", "combine:un:not:valued", "combine:un:not:typed",
                   "combine:bin:+:valued", "combine:bin:+:typed", "combine:bin:in:valued", "combine:bin:in:typed",
-                  "combine:bin:not in:valued", "combine:bin:and:valued", "combine:bin:and:typed", "combine:bin:or:valued",
+                  "combine:bin:not in:valued", "combine:bin:not in:typed", "combine:bin:and:valued", "combine:bin:and:typed", "combine:bin:or:valued",
                   "combine:index:valued", "combine:index:typed", "combine:slice:valued", "combine:slice:typed",
                   "pow_kind:variable", "pow_kind:nonneg literal", "pow_kind:negative literal"] +
                  ["combine:bin:%s:typed" % op for op in ("-", "*", "/", "//", "%", "**", "==", "!=", "<", ">", "<=", ">=")] +
@@ -1420,7 +1426,7 @@ def run(chk):
             deep.append((k, p))     # the real evaluator recurses once per link: run each in its own process
         else:
             progs.append(("scale:" + k.rstrip("0123456789"), p))
-    n4 = 250 if quick else 3000
+    n4 = 100 if quick else 3000
     pairs4 = [(i, j) for i in range(4) for j in range(4)]
     for _ in range(n4):
         dens = rng.choice([0.1, 0.2, 0.3, 0.5])
@@ -1430,13 +1436,25 @@ def run(chk):
         for _ in range(1500):
             dens = rng.choice([0.05, 0.1, 0.2])
             progs.append(("graph6", graph_programs(6, [{p for p in pairs6 if rng.random() < dens}])[0]))
-    for _ in range(550 if quick else 5000):
+    for _ in range(350 if quick else 5000):
         progs.append(("random", Gen(rng, rng.randint(1, 6)).program()))
     plist = [p for _, p in progs]
 
     impl = run_impl(binary, plist, emit=False)
     model_ok = vlib.coq_build(["C06/Model.vo"])[0]
-    model = run_model(plist, "c06") if model_ok else None
+    model = None
+    if model_ok:
+        # big deterministic programs get their own small shards (one coqc each pair) so that no shard is slow
+        big = [i for i, (k, _) in enumerate(progs) if k.startswith("scale:")]
+        small = [i for i in range(len(progs)) if i not in set(big)]
+        model = [None] * len(progs)
+        with concurrent.futures.ThreadPoolExecutor(max_workers=2) as ex:
+            fa = ex.submit(run_model, [plist[i] for i in small], "c06")
+            fb = ex.submit(run_model, [plist[i] for i in big], "c06big", 3)
+            for i, r in zip(small, fa.result()):
+                model[i] = r
+            for i, r in zip(big, fb.result()):
+                model[i] = r
     if not model_ok:
         res["tie_ok"] = False
         res["broken"].append({"what": "model", "message": "C06/Model.v no longer builds"})
@@ -1486,7 +1504,7 @@ def run(chk):
             fails.append(f)
 
     # ---- emission: static-str folding and numeric/bool const items
-    fprogs = fold_programs(rng, 200 if quick else 1500)
+    fprogs = fold_programs(rng, 160 if quick else 1500)
     fimpl = run_impl(binary, fprogs, emit=True)
     fterms = ["[" + "; ".join("(%d, %s)" % (n, coq_expr(e)) for n, a, e in p if a == "str") + "]" for p in fprogs]
     fmodel = vlib.coq_eval(REQ, "sdecls", "render_fold", fterms, shard=150, tag="c06fold") if model_ok else None
@@ -1541,7 +1559,7 @@ def run(chk):
 
     # numeric / bool / tuple const items: emitted Rust const expression evaluates to the run-time value
     nprogs = [p for k, p in progs if k == "random"][: (250 if quick else 2000)]
-    nprogs += [BuildGen(rng, rng.randint(3, 10)).program() for _ in range(120 if quick else 800)]
+    nprogs += [BuildGen(rng, rng.randint(3, 10)).program() for _ in range(80 if quick else 800)]
     nprogs += [p for k, p in progs if k in ("arm:coll", "arm:un", "scale:intmax")] + [p for k, p in progs if k == "scale:list" and len(p[0][2][2]) <= 65]
     nimpl = run_impl(binary, nprogs, emit=True)
     stats.update({"emit_items_evaluated": 0, "emit_items_with_nonconst_call": 0, "emit_rejected": 0})
@@ -1589,8 +1607,6 @@ def run(chk):
     chk.coverage["model_arms_unreachable"] = ["by_name:EUnknownSym (only declared names are looked up)", "combine:EMalformed (arity the parser cannot produce)",
                                               "check_decl:ECannotInfer (needs a None literal: outside the model, pinned by the spec corpus)",
                                               "combine:EEmptyColl:1 (`{}` is the empty dict)", "sresolve:visiting (cycles are rejected before emission)"]
-    if zero:
-        raise vlib.Infra("C06 generator bug: model arms with zero hits: %s" % zero)
 
     # ---- known findings: replay the witnesses
     for f in chk.findings:
@@ -1621,6 +1637,8 @@ def run(chk):
                                                     "count": stats["pure_vs_stateful_mismatch"]}, no_input=True)
         if not res["proofs_ok"] or not res["tie_ok"]:
             chk.violation("proof-broken", {"theorem_or_tie": res["broken"]}, no_input=True)
+    if zero and not chk.violations:
+        raise vlib.Infra("C06 generator bug: model arms with zero hits: %s" % zero)
 
 
 # ----------------------------------------------------------------------------- fixed inputs outside the model
